@@ -96,3 +96,5 @@ known("C12","C12-number-keys-are-text","number-typed key attributes are identifi
  ["C12|key-identity|%s|%s|explained-by-key-text=true@%s" % (p,o,d) for p in ("hash","range") for o in ("get","overwrite") for d in ("v1","v2")] +
  ["C12|key-order|%s|explained-by-text-order=true@%s" % (t,d) for t in ("N","B") for d in ("v1","v2")],
  {"history":["CreateTable tab (h:N)","PutItem {h:1}"],"op":"GetItem {h:1.0} -> nothing"})
+fixed("C14","C14-v1-shares-caller-memory","SDK v1 client no longer shares memory","v1: mutating a *string/*bool/byte/set member of a structure passed to PutItem/BatchWriteItem/UpdateItem, or returned by GetItem/Query/Scan/UpdateItem, changed the stored item")
+fixed("C14","C14-v2-shares-binary-and-bool","SDK v2 client copies binary and boolean","v2: the byte slices of B/BS values and the BOOL member's field were shared between the caller's structures and the stored item")
